@@ -7,6 +7,7 @@ CONSTANTS
   WFull = 2
   RecvMax = 1
   Hows = {"close", "atexit"}
+  MaxClose = 1
 INVARIANT TypeOK
 INVARIANT OneSelect
 INVARIANT StartSelectPre
@@ -17,6 +18,9 @@ INVARIANT NoUnreadyDuringSelect
 INVARIANT NoStaleSleep
 INVARIANT JoinedStopped
 INVARIANT NoDeadlock
+INVARIANT ClosedFdImpliesWake
+INVARIANT PollFindsWake
+INVARIANT NoCrash
 PROPERTY Dispatch
 PROPERTY CloseTerminates
 PROPERTY ThreadExits
